@@ -824,6 +824,129 @@ func runFloat(ctx *bex.Ctx) {
 	ctx.SpaceDone(fmt.Sprintf("all trees with <= %d operator nodes x the same operators declared in %d other orders %v (other priorities; the binary twin of the prefix operator first, the table reversed, shuffled) x optimizer on/off, rendered minimally under each table", maxFlags, len(floatOrders), floatOrders))
 }
 
+// ---------------------------------------------------------------------------------------------
+// float forms beyond the operator trees: if with constant branches of every truth value, and lets inside
+// the arguments of a function with two arguments (example/minimal.go has one-argument functions only)
+
+type floatForm struct {
+	src string
+	ref func(a, b float64) float64
+}
+
+func truth(c float64) bool { return c != 0 }
+
+func floatForms() []floatForm {
+	var out []floatForm
+	conds := []struct {
+		src string
+		f   func(a, b float64) float64
+	}{
+		{"a<b", func(a, b float64) float64 { return fromBool(a < b) }},
+		{"a", func(a, b float64) float64 { return a }},
+		{"a-b", func(a, b float64) float64 { return a - b }},
+		{"a=b", func(a, b float64) float64 { return fromBool(a == b) }},
+		{"2", func(a, b float64) float64 { return 2 }},
+		{"1-1", func(a, b float64) float64 { return 0 }},
+	}
+	branches := []struct {
+		src string
+		f   func(a, b float64) float64
+	}{
+		{"0", func(a, b float64) float64 { return 0 }},
+		{"1", func(a, b float64) float64 { return 1 }},
+		{"2", func(a, b float64) float64 { return 2 }},
+		{"1+1", func(a, b float64) float64 { return 2 }},
+		{"1-1", func(a, b float64) float64 { return 0 }},
+		{"0.5", func(a, b float64) float64 { return 0.5 }},
+		{"b", func(a, b float64) float64 { return b }},
+	}
+	for _, c := range conds {
+		for _, t := range branches {
+			for _, e := range branches {
+				c, t, e := c, t, e
+				ref := func(a, b float64) float64 {
+					if truth(c.f(a, b)) {
+						return t.f(a, b)
+					}
+					return e.f(a, b)
+				}
+				out = append(out, floatForm{"if " + c.src + " then " + t.src + " else " + e.src, ref})
+				out = append(out, floatForm{"(if " + c.src + " then " + t.src + " else " + e.src + ")*2+a", func(a, b float64) float64 { return ref(a, b)*2 + a }})
+			}
+		}
+	}
+	// f2(p,q) = p*4+q: not symmetric, so a mixed-up argument shows
+	f2 := func(p, q float64) float64 { return p*4 + q }
+	out = append(out,
+		floatForm{"f2(a, let x=b; x)", func(a, b float64) float64 { return f2(a, b) }},
+		floatForm{"f2(a, let x=b; let y=2; x+y)", func(a, b float64) float64 { return f2(a, b+2) }},
+		floatForm{"f2(let x=a; x, let y=b; let z=y+1; z)", func(a, b float64) float64 { return f2(a, b+1) }},
+		floatForm{"f2(let x=a; let y=b; x-y, let u=b; let v=a; u*2+v)", func(a, b float64) float64 { return f2(a-b, b*2+a) }},
+		floatForm{"f2(a, if a<b then let x=b; let y=a; x-y else 0)", func(a, b float64) float64 {
+			if a < b {
+				return f2(a, b-a)
+			}
+			return f2(a, 0)
+		}},
+		floatForm{"f2(a, f2(b, let x=a; let y=b; x*2+y))", func(a, b float64) float64 { return f2(a, f2(b, a*2+b)) }},
+		floatForm{"f2(f2(a,b), let x=b; f2(x, let y=a; y+x))", func(a, b float64) float64 { return f2(f2(a, b), f2(b, a+b)) }},
+		floatForm{"let w=a+1; f2(w, let x=b; let y=w; x+y)", func(a, b float64) float64 { return f2(a+1, b+a+1) }},
+		floatForm{"f3(a, let x=b; x, let y=a; let z=b; y-z)", func(a, b float64) float64 { return a*16 + b*4 + (a - b) }},
+		floatForm{"f3(1, 2, let y=a; let z=b; let u=y+z; u*2)", func(a, b float64) float64 { return 16 + 8 + (a+b)*2 }},
+		floatForm{"sqr(let x=a; let y=b; x+y)", func(a, b float64) float64 { return (a + b) * (a + b) }},
+		floatForm{"f2(a, let x=b; let y=x+1; let z=y+1; z)+f2(b, let x=a; let y=x*2; y)", func(a, b float64) float64 { return f2(a, b+2) + f2(b, a*2) }},
+	)
+	return out
+}
+
+func newFloatForms(opt bool) *funcGen.FunctionGenerator[float64] {
+	g := newFloat(false, true, true, opt)
+	g.SetKeyWords("let", "if", "then", "else")
+	g.AddGoFunction("f2", 2, func(a ...float64) (float64, error) { return a[0]*4 + a[1], nil })
+	g.AddGoFunction("f3", 3, func(a ...float64) (float64, error) { return a[0]*16 + a[1]*4 + a[2], nil })
+	return g
+}
+
+func runFloatForms(ctx *bex.Ctx) {
+	ctx.Space("float-if-and-let-forms")
+	forms := floatForms()
+	gens := []*funcGen.FunctionGenerator[float64]{newFloatForms(true), newFloatForms(false)}
+	for i, fo := range forms {
+		if !ctx.Mine(int64(i)) || ctx.Expired() {
+			continue
+		}
+		for gi, g := range gens {
+			ctx.Eval()
+			f, _, err := g.Generate(fo.src, "a", "b")
+			if err != nil {
+				ctx.Violate("valid expression rejected by Generate", map[string]any{"kind": "float-form", "form": i, "src": fo.src, "optimizer": gi == 0}, "a function", "error: "+err.Error(), "")
+				continue
+			}
+			// a stack whose storage was used before: a wrong slot reads a stale value instead of failing
+			st := funcGen.NewStack[float64](7, 7, 7, 7, 7, 7, 7, 7, 7, 7, 7, 7)
+			for _, as := range floatAssign {
+				want := fo.ref(as[0], as[1])
+				for _, stale := range []bool{false, true} {
+					var got float64
+					var err error
+					if stale {
+						got, err = f(st.Init(as[0], as[1]))
+					} else {
+						got, err = f(funcGen.NewStack(as[0], as[1]))
+					}
+					if err != nil || got != want {
+						ctx.Violate("wrong float value of an if / let form", map[string]any{"kind": "float-form", "form": i, "src": fo.src, "optimizer": gi == 0, "a": as[0], "b": as[1], "used_stack": stale},
+							fmt.Sprint(want), fmt.Sprintf("%v (err %v)", got, err), "")
+						break
+					}
+				}
+			}
+			ctx.Nontrivial("ff|" + fo.src)
+		}
+	}
+	ctx.SpaceDone(fmt.Sprintf("%d float forms: if with 6 conditions (comparisons, variables, differences, constants: every truth value) x 7 x 7 constant and variable branches, bare and inside an expression; 12 programs with lets (nested, in every argument position) inside calls of functions with 2 and 3 arguments; x %d assignments x optimizer on/off x fresh and used stack", len(forms), len(floatAssign)))
+}
+
 func replay(repro map[string]any) (string, bool) {
 	src, _ := repro["src"].(string)
 	inst, _ := repro["inst"].(string)
@@ -875,6 +998,30 @@ func replay(repro map[string]any) (string, bool) {
 	b, _ := repro["b"].(float64)
 	var vals []float64
 	var out string
+	if kind == "float-form" {
+		fi, _ := repro["form"].(float64)
+		opt, _ := repro["optimizer"].(bool)
+		forms := floatForms()
+		if int(fi) >= len(forms) || forms[int(fi)].src != src {
+			return "unknown form", true
+		}
+		f, _, err := newFloatForms(opt).Generate(src, "a", "b")
+		if err != nil {
+			return "Generate: " + err.Error(), true
+		}
+		st := funcGen.NewStack[float64](7, 7, 7, 7, 7, 7, 7, 7, 7, 7, 7, 7)
+		fails := false
+		for _, as := range floatAssign {
+			want := forms[int(fi)].ref(as[0], as[1])
+			g1, e1 := f(funcGen.NewStack(as[0], as[1]))
+			g2, e2 := f(st.Init(as[0], as[1]))
+			out += fmt.Sprintf("a=%v b=%v: %v (err %v), on a used stack %v (err %v), want %v; ", as[0], as[1], g1, e1, g2, e2, want)
+			if e1 != nil || e2 != nil || g1 != want || g2 != want {
+				fails = true
+			}
+		}
+		return out, fails
+	}
 	if strings.HasPrefix(inst, "float-order/") {
 		var oi int
 		var opt bool
@@ -919,8 +1066,9 @@ func main() {
 		Rule:  "every expression tree up to the node bound is rendered (minimal/blank/full parentheses, comfort-mode juxtaposition) and generated on the package's own example.boolParser / example.minimal (reached through an overlay-added accessor) and on replicas with permuted commutative flags, optimizer on and off; each is evaluated on every assignment and compared with direct evaluation of the tree by the operators' Go definitions (floats: exactness of every step checked with big.Rat, inexact assignments excluded). distinct_nontrivial = distinct source texts whose reference result is not constant over the assignments (bool) / takes a value other than 0 and 1 (float)",
 		Assumptions: []string{"the renderer's grouping rules are the ones stated in C03/C19 (validated independently by C03's reference parser)",
 			"float operands restricted to the exact grid: division by 2 or 0.5 only, exponent 2 only"},
-		QuickBudget: 55e9, ThoroughBudget: 25 * 60e9,
+		QuickBudget: 90e9, ThoroughBudget: 30 * 60e9,
 		Run: func(ctx *bex.Ctx) {
+			runFloatForms(ctx) // small; first, so that it always completes
 			runBool(ctx)
 			runFloat(ctx)
 		},
